@@ -1095,6 +1095,7 @@ class TransportLayerLogic:
                                     self.tx_state = self.TxState.TRANSMIT_SF_STANDBY
                                 else:
                                     output_msg = msg_temp
+                                    self._stop_sending(success=True)    # A single frame is complete as soon as it is produced
 
                             # Multi frame - First Frame
                             else:
@@ -1140,7 +1141,7 @@ class TransportLayerLogic:
                         self._start_rx_fc_timer()
                         self.tx_state = self.TxState.WAIT_FC    # After a first frame, we wait for flow control
                     else:
-                        self.tx_state = self.TxState.IDLE   # After a single frame, there's nothing to do
+                        self._stop_sending(success=True)    # After a single frame, there's nothing to do. Back to IDLE
 
         elif self.tx_state == self.TxState.WAIT_FC:
             pass  # Nothing to do. Flow control will make the FSM switch state by calling init_tx_consecutive_frame
